@@ -12,7 +12,8 @@ def documents(draw, restricted=False):
     lang = draw(st.sampled_from(LANGS))
     g = G(rng, lang, restricted=restricted)
     src, exp = g.doc()
-    return dict(src=src, lang=lang, expected=[[w, list(c)] for w, c in exp], big_table_words=list(g.big_table_words))
+    return dict(src=src, lang=lang, expected=[[w, list(c)] for w, c in exp], big_table_words=list(g.big_table_words), tall_rows=[list(r) for r in g.tall_rows],
+                features=sorted(g.features))
 
 
 def parse(doc):
@@ -44,6 +45,9 @@ def doc_labels(doc):
         labels.append("ref")
     if any("Caption" in c for c in chains):
         labels.append("caption")
+    for f in doc.get("features", []):
+        if f in ("tall-cell", "jump-list"):
+            labels.append(f)
     kinds = set()
     for c in chains:
         for x in c:
